@@ -423,7 +423,10 @@ void run_logger_n(Ctx &c) {
 	c.tagf("logger-%zu", Limit);
 	if(message.size() % (Limit - 1) == 0 && !message.empty()) c.tag("logger-exact-multiple");
 }
-void run_logger(Ctx &c) { switch(c.t.pick(4)) { case 0: run_logger_n<2>(c); break; case 1: run_logger_n<3>(c); break; case 2: run_logger_n<8>(c); break; default: run_logger_n<128>(c); break; } }
+// Limit is a template parameter: besides the small buffers, sizes around the widths of narrower integer types (an offset kept in 8 or 16 bits)
+void run_logger(Ctx &c) { unsigned k = c.t.pick(32); switch(k) { case 0: case 4: case 8: case 12: case 16: case 20: case 24: run_logger_n<2>(c); break; case 1: case 5: case 9: case 13: case 17: case 21: case 25: run_logger_n<3>(c); break;
+	case 2: case 6: case 10: case 14: case 18: case 22: case 26: run_logger_n<8>(c); break; case 28: run_logger_n<256>(c); break; case 29: run_logger_n<257>(c); break; case 30: run_logger_n<65536>(c); break; case 31: run_logger_n<65537>(c); break;
+	default: run_logger_n<128>(c); break; } }
 } // namespace
 
 void verif_case(Ctx &c) {
